@@ -9,6 +9,9 @@ line LoggingMonitor writes is either a comment the reader skips or the data line
 whose skeleton, split on the reader's separator, yields exactly the three fields
 in the order the reader consumes them; write_raw_file defines inf/nan and writes
 the names read_raw_file imports; custom pickling keeps every attribute (C06.d).
+Round 3: every Monitor subclass reaches the base __call__ exactly once per call
+on every path with the caller's (x, y, id); listify returns its argument itself
+only when it is not iterable.
 NOT decided: textual round trip of particular float/array values.
 """
 import ast
